@@ -147,14 +147,17 @@ def validate(protos, tag, stats, parallel=2, workers=4):
 
 def run_mc(thorough, stats):
     """(1) operand rules: every opcode x boundary operand values as one-instruction prototypes;
-    (2) structure: every sequence of <= 3 words over an alphabet of instruction instances"""
+    (2) frame rules: parameters / implicit arg slot for every small (NumParameters, IsVarArg, NumUsedRegisters)
+        with instructions that only read registers;
+    (3) structure: every sequence of <= 3 words over an alphabet of instruction instances"""
     out = []
-    for cfg, maxlen in (("BytecodeMC_ops", 1), ("BytecodeMC_full" if thorough else "BytecodeMC_core", 3)):
+    for cfg, maxlen in (("BytecodeMC_ops", 1), ("BytecodeMC_frame", 2 if thorough else 1),
+                        ("BytecodeMC_full" if thorough else "BytecodeMC_core", 3)):
         r = vlib.run_tlc("BytecodeMC", cfg, consts={"MaxLen": maxlen}, workers=8, timeout=2400)
         wfp = r.tag("WFP")
         ngroup = sum(1 for w in wfp if w["g"] > 0)
         njump = sum(1 for w in wfp if w["j"] > 0)
-        if not wfp or (maxlen > 1 and (not ngroup or not njump)):
+        if not wfp or (maxlen > 2 and (not ngroup or not njump)):
             raise vlib.Infra("%s is vacuous: %d well-formed prototypes, %d with groups, %d with jumps" % (cfg, len(wfp), ngroup, njump))
         stats["states"] += r.distinct
         stats["transitions"] += r.generated
@@ -335,6 +338,8 @@ def replay(path):
 # selftest: the machinery must notice a weakened rule and a corrupted record
 
 SPEC_MUTANTS = [
+    ("implicit arg slot may lie outside the frame", 'ELSE IF HasArgSlot(p) /\\ p.np >= p.nreg', 'ELSE IF FALSE'),
+    ("parameters may lie outside the frame", 'IF p.np > p.nreg THEN {"frame:NumParameters>NumUsedRegisters"}', 'IF FALSE THEN {}'),
     ("NOT forgets its B operand", '[] o = OP_NOT -> W(a, "A") \\cup R(b, "B")', '[] o = OP_NOT -> W(a, "A")'),
     ("jumps into groups tolerated", 'ELSE IF ~hd.h[t + 1] THEN {"jump-into:" \\o InteriorKind(p, hd, t)}', 'ELSE IF FALSE THEN {}'),
     ("FORLOOP loop variable not counted", '[] o = OP_FORLOOP -> W(a + 3, "loop-variable(A+3)") \\cup', '[] o = OP_FORLOOP -> W(a + 2, "x") \\cup'),
@@ -355,7 +360,7 @@ def selftest():
                 raise vlib.Infra("selftest: spec text of mutant '%s' not found" % name)
             open(path, "w").write(orig.replace(old, new))
             caught = False
-            for cfg, maxlen in (("BytecodeMC_ops", 1), ("BytecodeMC_core", 3)):
+            for cfg, maxlen in (("BytecodeMC_ops", 1), ("BytecodeMC_frame", 1), ("BytecodeMC_core", 3)):
                 r = vlib.run_tlc("BytecodeMC", cfg, consts={"MaxLen": maxlen}, workers=8, timeout=1500, allow_violation=True)
                 if not r.ok and "is violated" in r.raw:
                     caught = True
